@@ -4,6 +4,7 @@ Every panic site (MIR Assert, panicking callee) and every loop of the library is
 discharged by a local rule over cursor/counter typestate; f64 arithmetic never panics, so
 NaN / inf / invalid bars need no case analysis."""
 import callees
+from coverage import _empty_arm
 import callgraph
 import ir
 import symex
@@ -102,7 +103,10 @@ def discharge(site, ts, ex):
         if kind == "Overflow" and site.get("op") in ("Add", "Mul", "Sub") and is_const(ops.get("a")) and is_const(ops.get("b")):
             x, y = ops["a"][2], ops["b"][2]
             v = {"Add": x + y, "Mul": x * y, "Sub": x - y}[site["op"]]
-            if 0 <= v < 2 ** 63:
+            lo_, hi_ = {"u8": (0, 2 ** 8 - 1), "u16": (0, 2 ** 16 - 1), "u32": (0, 2 ** 32 - 1), "u64": (0, 2 ** 64 - 1), "usize": (0, 2 ** 32 - 1),
+                        "i8": (-2 ** 7, 2 ** 7 - 1), "i16": (-2 ** 15, 2 ** 15 - 1), "i32": (-2 ** 31, 2 ** 31 - 1), "i64": (-2 ** 63, 2 ** 63 - 1),
+                        "isize": (-2 ** 31, 2 ** 31 - 1)}.get(str(site.get("ty")), (0, 127))   # (usize/isize: the narrowest supported target; unknown type: i8)
+            if lo_ <= v <= hi_:
                 return "R-const-arith", ""
             return None, "constant arithmetic %s %s %s overflows" % (x, site["op"], y)
         if kind == "Overflow" and site.get("op") in ("Add", "Sub") and isinstance(ops.get("a"), tuple) and ops["a"][0] == "pre" \
@@ -301,6 +305,7 @@ def apply(F, S, extra=None):
     evaluated = 0
     loops = 0
     loops_seen = set()
+    blocks_seen = set()
     evaluated_fns = []
     index_calls = set()   # (fn path, line, col) of the slice-index calls recorded as sites
     # P1 + slice-index part of P2: evaluate every hand-written, non-constructor function
@@ -336,6 +341,7 @@ def apply(F, S, extra=None):
             S.ok("P0", f.label, blocks=len(f.blocks))
         ex = r["exec"]
         loops_seen |= ex.loops_seen
+        blocks_seen |= ex.visited
         evaluated_fns.append(f)
         for site in ex.sites:
             if site["what"] == "diverge-edge":
@@ -382,6 +388,23 @@ def apply(F, S, extra=None):
                 S.ok("P3", "%s bb%d" % (f.label, h), driver="Iterator::next on Range/slice::Iter/Enumerate (or a counted `i < bound` loop); the exit edge leaves the loop")
             else:
                 S.bad("P3", "loop-unvisited", f.label, "the loop at bb%d of %s was never reached by the evaluation: no termination argument" % (h, f.label), loc(f.span))
+    # P6: code the evaluator never executed has not been analysed by anyone — a closure that only drop glue or an unmodelled consumer
+    # would call, a branch pruned by a fact that does not hold.  Every basic block of every hand-written non-constructor function and
+    # closure must have been executed on some path of some evaluation (empty `unreachable` blocks of exhaustive matches excepted).
+    ctor_paths_ = [g.path for g in F.fns if is_ctor(g)]
+    failed_eval = {f_.path for f_ in F.fns} - {f_.path for f_ in evaluated_fns}
+    for f in F.fns:
+        if f.derived or is_ctor(f) or any(f.path.startswith(c + "::") for c in ctor_paths_):
+            continue
+        if f.path in F.helpers() and F.only_from_constructors(f.path):
+            continue
+        if f.kind != "Closure" and f.path not in F.helpers() and f.path in failed_eval:
+            continue  # its evaluation failed: reported above as unrecognised
+        missing = [b for b in f.blocks if (f.path, b["id"]) not in blocks_seen and not (b["term"]["k"] == "unreachable" and not b["stmts"]) and not _empty_arm(b)]
+        if missing:
+            S.bad("P6", "unvisited-code", f.label, "%d basic block(s) of %s (first: bb%d, %s) were never executed by the evaluation: their effects (state writes, panics, loops) are unknown" % (len(missing), f.label, missing[0]["id"], loc(missing[0]["term"]["span"]) if missing[0]["term"].get("span") else "?"), loc(f.span))
+        else:
+            S.ok("P6", f.label, blocks=len(f.blocks))
     # every Assert terminator of the crate outside `new` must have been visited by an evaluation (or sits in dead code)
     for f in F.fns:
         if is_ctor(f) and not f.derived:
@@ -512,6 +535,7 @@ def run(tier, repo=None, tag="repo"):
     rep.rule("P2", "every panicking callee outside constructors is discharged (slice ranges by typestate, unwrap in default() by the constructor's term); none unclassified", 0)
     rep.rule("P3", "every loop is driven by Iterator::next of a Range / slice iterator (terminates)", 0)
     rep.rule("P4", "no recursion", 1)
+    rep.rule("P6", "every basic block of every hand-written non-constructor function and closure is executed by some evaluation", 140)
     rep.rule("P5", "no format string takes a width / precision from a run-time value (core::fmt panics above u16::MAX)", 20)
     configs = ["default", "serde"] + (["release"] if tier == "thorough" else [])
     from extract import ExtractError
